@@ -13,7 +13,7 @@ META = {
 
 def run(ctx):
     drv = ctx.build("c20")
-    for cfg in (("state/MCPathDBCrash", "state/MCPathDBCrashB") if not ctx.thorough else ("state/MCPathDBCrashThorough",)):
+    for cfg in (("state/MCPathDBCrash",) if not ctx.thorough else ("state/MCPathDBCrash", "state/MCPathDBCrashB")):
         ctx.model_check("state/PathDBCrash", cfg, timeout=ctx.pick(3600, 14400), name=os.path.basename(cfg),
                         workers=ctx.pick(4, 8), coverage=ctx.thorough)
     tp = os.path.join(ctx.scratch, "trace.ndjson")
